@@ -31,6 +31,10 @@ CLAIMED["C06"] = dict(engine="execsim", design="DESIGN.md §5 C06",
    text="Seeded search over interleavings of directory writers (API: WritePlan, WriteCheckpoint, WriteSumFile, CopyFiles; CLI: migrate new/hash/diff/import) with disk faults at the Dir seam (failed, torn, error-after-durable writes of migration files and of atlas.sum) and adversary edits of the storage; oracle = Validate / `migrate validate` / `migrate apply` agree with an independent reference implementation of the sum format, every successful writer leaves the directory valid, every tamper of a valid directory is detected, errors are checksum errors, never a panic.",
    note="Torn writes are simulated at the Dir interface, not at the kernel; SHA-256 collisions excluded; non-.sql files and bodies of sum-ignored files are outside the integrity domain.",
    technique="deterministic simulation: seeded writer/adversary schedules with injected disk faults, reference-model oracle, tape shrinking + exact replay")
+CLAIMED["C14"] = dict(engine="clisim", design="DESIGN.md §5 C14",
+   text="Seeded search over (dev-url command x initial dev state x failing statement position x crash point inside the replay) against the real CLI with a SQLite file as dev database; oracle by independent observer: a non-empty dev database is refused with the not-clean diagnostic and is logically identical afterwards, an empty one is empty afterwards on success and on every failure path, the migration directory is never written by a replay, the target of schema apply is untouched when the dev replay fails, and after a crash inside a replay the next command refuses the leftovers.",
+   note="Logical (sqlite_master + rows) identity, byte identity reported as a probe; no crash point inside migrate lint; with HCL sources the SQLite driver never writes to the dev database, so only 'untouched' is required there.",
+   technique="deterministic simulation: injected statement failures and SIGKILL at replay hook points in the real CLI, state invariants by independent observer, tape shrinking + exact replay")
 
 NOT_BUILT = {
  "C01": "not built yet in this tree (planned claim, DESIGN \u00a75); listed here so that every unclaimed property has an entry",
